@@ -214,6 +214,8 @@ pub struct Interp<'a> {
 	pub files: HashMap<String, &'a Ex>,
 	pub file_strs: HashMap<String, Vec<u8>>,
 	pub file_cache: HashMap<String, Th<'a>>,
+	/// import path spelling -> canonical file name (several spellings / symlinks of one file)
+	pub file_alias: HashMap<String, String>,
 	pub ext: HashMap<String, Th<'a>>,
 	next_layer_id: usize,
 	/// strict mode flags for zones where implementations legitimately differ -> Unsure
@@ -235,6 +237,7 @@ impl<'a> Interp<'a> {
 			files: HashMap::new(),
 			file_strs: HashMap::new(),
 			file_cache: HashMap::new(),
+			file_alias: HashMap::new(),
 			ext: HashMap::new(),
 			next_layer_id: 1,
 			unsure_on_float_tostring: true,
@@ -1055,6 +1058,8 @@ impl<'a> Interp<'a> {
 	// --- imports ----------------------------------------------------------------------------------
 
 	fn import(&mut self, kind: ImportKind, path: &str) -> R<Val<'a>> {
+		let canon = self.file_alias.get(path).cloned();
+		let path = canon.as_deref().unwrap_or(path);
 		match kind {
 			ImportKind::Code => {
 				if let Some(th) = self.file_cache.get(path).cloned() {
